@@ -51,7 +51,7 @@ MANIFEST = dict(
     technique="symbolic composition of literal index tables + provenance "
               "term matching + known-ill-conditioned-idiom detection",
 )
-FLOORS = {"C09.1": 4, "C09.2": 7, "C09.3": 6, "C09.4": 2}
+FLOORS = {"C09.1": 4, "C09.2": 7, "C09.3": 7, "C09.4": 2}
 L = "evo.core.lie_algebra."
 R33 = T("tuple", T("slice", tm.NONE, const(3), tm.NONE),
         T("slice", tm.NONE, const(3), tm.NONE))
@@ -82,6 +82,28 @@ def _transpose_of(t: T) -> Optional[T]:
     if is_call_to(t, "numpy.transpose") and len(t.args[1]) == 1:
         return t.args[1][0]
     return None
+
+
+def _conjuncts(ret: T):
+    """the top-level conjuncts of a membership test; a disjunction is not a
+    conjunct (either side alone would let an element pass)"""
+    while ret.op == "named" or is_call_to(ret, "builtins.bool"):
+        ret = ret.args[1] if ret.op == "named" else ret.args[1][0]
+    if ret.op == "boolop" and ret.args[0] == "And":
+        out = []
+        for c in ret.args[1]:
+            out.extend(_conjuncts(c))
+        return tuple(out)
+    if ret.op == "boolop" and ret.args[0] == "Or":
+        return ()
+    if ret.op == "and":
+        out = []
+        for c in ret.args:
+            out.extend(_conjuncts(c))
+        return tuple(out)
+    if ret.op == "or":
+        return ()
+    return (ret,)
 
 
 def check(ctx):
@@ -227,8 +249,7 @@ def check(ctx):
     # --------------------------------------------------------------- C09.3
     r = tm.param("r")
     ret = run("is_so3").ret
-    conj = ret.args[1] if ret.op == "boolop" and ret.args[0] == "And" else \
-        (ret,)
+    conj = _conjuncts(ret)
     det_c = [c for c in conj if any(is_call_to(x, "numpy.linalg.det") and
                                     x.args[1][0] is r for x in c.walk())]
     orth_c = [c for c in conj if any(
@@ -249,17 +270,26 @@ def check(ctx):
            f"is_so3 lacks the "
            f"{'determinant' if not det_c or not one else 'orthogonality'} "
            f"conjunct: {fmt(ret)}", key="C09.3:is_so3")
-    tols = [fmt(v_) for c in conj for x in c.walk() if x.op == "call"
+    tolv = [(k, v_) for c in conj for x in c.walk() if x.op == "call"
             for k, v_ in x.args[2] if k in ("atol", "rtol")]
-    ctx.note(f"is_so3 tolerances (reported, not judged): {tols}")
+    big = [(k, v_) for k, v_ in tolv if not (
+        tm.is_const(v_) and isinstance(v_.args[1], (int, float)) and
+        0 <= v_.args[1] <= 1e-3)]
+    ctx.ob("C09.3", prog.func(L + "is_so3"), not big,
+           f"is_so3 tolerances are small "
+           f"({[(k, fmt(v_)) for k, v_ in tolv]}): a block scaled or sheared "
+           f"by more than a rounding-level amount fails" if not big else
+           f"is_so3 tolerance {big[0][0]}={fmt(big[0][1])} is not a "
+           f"rounding-level bound (> 1e-3): scaled / sheared blocks and "
+           f"near-reflections are accepted as rotations",
+           key="C09.3:is_so3:tolerance")
     bottom = T("list", const(0.0), const(0.0), const(0.0), const(1.0))
     for name, arg in (("is_se3", "p"), ("is_sim3", "p")):
         it = Interp(prog)
         res = it.run(prog.func(L + name))
         ret = res.ret
         pa = tm.param(arg)
-        conj = ret.args[1] if ret.op == "boolop" and ret.args[0] == "And" \
-            else (ret,)
+        conj = _conjuncts(ret)
         rot_c = [c for c in conj if any(is_call_to(x, L + "is_so3")
                                         for x in c.walk())]
         row_c = [c for c in conj if any(
